@@ -15,6 +15,8 @@ from vlib import w as W
 from vlib.core import Ob
 
 PROPERTY_ID = "C08"
+ENGINE = 'E1 CrossHair 0.0.110 (z3) on the real code'
+TECHNIQUE = 'CrossHair symbolic execution of the real IndelMap / FeatureMap / Span operations on object-dtype arrays of symbolic integers (unbounded coordinates, <= 3 gap runs), compared position by position with the gapped-string reading; all paths exhausted'
 CLAIM = "IndelMap/FeatureMap operations equal the gapped-string reading for every gap layout with <= G runs and unbounded integer coordinates."
 
 _GAP_DT = L._DEFAULT_GAP_DTYPE  # the code's own machine dtype (used in plain replay)
